@@ -130,7 +130,9 @@ class ProjectiveDrawing(Drawing):
 
         self.transform = projective.identity(2)
         if transform is not None:
-            self.transform = transform
+            # (a copy, as in set_transform: the drawing does not follow
+            # later changes to the caller's object)
+            self.transform = transform.astype('float64')
 
     def preprocess_object(self, obj):
         if obj.dimension != 2:
@@ -357,7 +359,7 @@ class ProjectiveDrawing3D(ProjectiveDrawing, Drawing3D):
         self.transform = projective.identity(3)
 
         if transform is not None:
-            self.transform = transform
+            self.transform = transform.astype('float64')
 
     def preprocess_object(self, obj):
         if obj.dimension != 3:
